@@ -104,6 +104,13 @@ CLAIMS['C07'] = ('bounded symbolic execution (CrossHair/z3) of the whole real ex
                  'languages under 16 option sets: the call returns a string or raises one of the two parse errors with an in-range position.',
                  '§3 C07')
 
+CLAIMS['C05'] = ('bounded symbolic execution (CrossHair/z3): expand() on value sequences assembled from solver-chosen number shapes/units with symbolic '
+                 'unit options; exhaustive channel printers; colour-form selection with symbolic channels',
+                 'Every sequence of up to K values over 9 number shapes x 8 units on unit-taking and unitless properties, with symbolic '
+                 'intUnit/floatUnit strings, is compared piece by piece with a reference model of the value language; hex printers are value-'
+                 'preserving for every channel 0..255 and the short/long/rgba/transparent form is selected correctly for all 2^24 colours '
+                 '(printers + selection lemma compose); 16 colour spellings end to end.', '§3 C05')
+
 NOT_YET = {}
 
 
